@@ -56,10 +56,32 @@ class Table:
         return c[0]
 
     def bodies(self, m):
-        return self.F.with_descendants(m)
+        """the method, its closures, and the private helper methods of the same table it calls (transitively): extracting a helper
+        inside the table does not hide anything from the rules"""
+        out, seen, work = [], set(), [m]
+        while work:
+            f = work.pop()
+            if f.id in seen:
+                continue
+            seen.add(f.id)
+            for g in self.F.with_descendants(f):
+                if g.id not in {x.id for x in out}:
+                    out.append(g)
+                for _, t in g.calls():
+                    c = self.F.callee_fn(t)
+                    if c is not None and c.id not in seen and c.impl_of and c.impl_of.get('self_head') == self.path and c.id != m.id \
+                            and not (c.vis or '').startswith('Public'):
+                        work.append(c)
+        return out
 
     def _has(self, m, *n):
-        return calls_any(self.F, m, *n)
+        return any(callee_is(t, *n) for g in self.bodies(m) for _, t in g.calls())
+
+    def is_helper(self, f):
+        """closures, and private methods of the table: parameters of these are followed into their callers by the provenance rules"""
+        if f.kind == 'Closure':
+            return True
+        return bool(f.impl_of and f.impl_of.get('self_head') == self.path and not (f.vis or '').startswith('Public'))
 
     def inserting(self):
         return [m for m in self.methods if self._has(m, 'hash_map::VacantEntry::insert', 'HashMap::insert', 'hash_map::Entry::or_insert', 'hash_map::Entry::or_insert_with')]
